@@ -177,6 +177,35 @@ def bounded(ses):
             d = e2e.first_difference(e2e.canon(trees[0]), e2e.canon(trees[1]))
             if d:
                 bad.append((root, "second open differs: " + d))
+    # two products with identical file names open at the same time: each tree must deliver its own pixels
+    fsA, imagesA, _ = e2e.make_product("/c13/twinA", k=2, level="1.5", seed=ses.seed + 100)
+    fsB, imagesB, _ = e2e.make_product("/c13/twinB", k=2, level="1.5", seed=ses.seed + 200)
+    tA = open_alos2("memory:///c13/twinA", backend_options={"use_cache": False})
+    tB = open_alos2("memory:///c13/twinB", backend_options={"use_cache": False})
+    n += 2
+    for t, images, root in ((tA, imagesA, "twinA"), (tB, imagesB, "twinB")):
+        for (p, s_, d), nm in zip(images, [e2e.group_name(p, s_) for p, s_, _ in images]):
+            vals = t[f"imagery/{nm}/data"].values if nm in t["imagery"].children else None
+            if vals is None or vals.shape != d.shape or not np.array_equal(vals, d):
+                bad.append((root, ("a tree opened next to a same-named product returns foreign pixels", nm)))
+    # partially cached product (only a non-prefix subset of the images has an index): still every group, in summary order
+    import pathlib
+
+    from ceos_alos2.sar_image.caching import path as P
+
+    root = "/c13/partial"
+    fs, images, names = e2e.make_product(root, k=4, level="1.1", seed=ses.seed + 300)
+    open_alos2(f"memory://{root}", backend_options={"use_cache": False, "create_cache": True})
+    idx = sorted(pathlib.Path(P.cache_root).rglob("*.index"))
+    for name in names[2:-1][:1] + names[2:-1][2:3]:  # drop the index of the 1st and 3rd image
+        for p_ in idx:
+            if p_.name == name + ".index":
+                p_.unlink()
+    t = open_alos2(f"memory://{root}", backend_options={"use_cache": True})
+    n += 1
+    want_names = [e2e.group_name(p, s_) for p, s_, _ in images]
+    if list(t["imagery"].children) != want_names:
+        bad.append((root, ("imagery children with a partial cache", list(t["imagery"].children), want_names)))
     ses.bounded_check("C13/bounded/synthetic-products-k=1..8", not bad,
                       bound=f"k = 1..8 images x (level 1.5 with map projection, level 1.1 without), random distinct (pol, scan) "
                             f"sets, each opened twice ({n} trees)", function="ceos_alos2.xarray.open_alos2", evaluations=n,
